@@ -223,6 +223,17 @@ func (f *frame) call(res ssa.Value, c *ssa.CallCommon, st *State, cur string) (s
 				rec.argT = append(rec.argT, a.Type())
 			}
 			f.callLog[name] = append(f.callLog[name], rec)
+			// methods are also logged as ReceiverType_Method (disambiguates equal method names)
+			if fn := c.StaticCallee(); fn != nil && fn.Signature.Recv() != nil {
+				rt := fn.Signature.Recv().Type()
+				if p, ok := rt.(*types.Pointer); ok {
+					rt = p.Elem()
+				}
+				if n, ok := rt.(*types.Named); ok {
+					k := n.Obj().Name() + "_" + name
+					f.callLog[k] = append(f.callLog[k], rec)
+				}
+			}
 		}
 	}
 	return out, err
@@ -761,9 +772,16 @@ func (f *frame) contractCall(res ssa.Value, plan callPlan, c *ssa.CallCommon, st
 		nn := B.define("ntrace", "Int", ite(cond, fmt.Sprintf("(+ %s 1)", st.ntrace), st.ntrace))
 		st.trace, st.ntrace = nt, nn
 	}
+	var only map[string]bool
+	if t.fc != nil && t.fc.Uses != nil {
+		only = t.fc.Uses[shortKey(fc.Key)]
+	}
 	for _, e := range fc.Ensures {
 		if e.Local {
 			continue
+		}
+		if only != nil && !only[e.Name] {
+			continue // the caller's contract imports only some postconditions of this callee (keeps queries small)
 		}
 		g, err := envPost.compileBool(e.Expr)
 		if err != nil {
